@@ -126,7 +126,13 @@ impl Cfg {
         if self.layers & L_ENC != 0 {
             let pubs: Vec<PublicKey> =
                 self.recipients.iter().map(|k| PublicKey::from(&StaticSecret::from(*k))).collect();
-            c.add_public_keys(&pubs);
+            // recipients may be registered in one call or several (chosen from the keys themselves, so
+            // that a replay does the same): all at once / one call per key / the first alone, then the rest
+            match self.recipients[0][0] % 3 {
+                0 => { c.add_public_keys(&pubs); }
+                1 => { for p in &pubs { c.add_public_keys(std::slice::from_ref(p)); } }
+                _ => { c.add_public_keys(&pubs[..1]); if pubs.len() > 1 { c.add_public_keys(&pubs[1..]); } }
+            }
         }
         c
     }
